@@ -43,6 +43,7 @@ type Contract struct {
 	Line     int
 	Lets     []LetDef // ghost definitions usable in clauses: let name = expr (evaluated at entry)
 	Uses     []string
+	WF       []string // heap specs for which heap well-formedness axioms are emitted
 }
 
 type LetDef struct {
@@ -225,6 +226,15 @@ func (cs *ContractSet) loadFile(path string) error {
 				m = strings.TrimSpace(m)
 				if m != "" && m != "nothing" {
 					cur.Modifies = append(cur.Modifies, m)
+				}
+			}
+		case "wf":
+			if cur == nil {
+				return fmt.Errorf("%s:%d: wf outside func", path, r.line)
+			}
+			for _, m := range strings.Split(r.text, ",") {
+				if m = strings.TrimSpace(m); m != "" {
+					cur.WF = append(cur.WF, m)
 				}
 			}
 		case "inline":
